@@ -13,6 +13,7 @@
 //! [mdn]: https://developer.mozilla.org/en-US/docs/Web/JavaScript/Reference/Global_Objects/TypedArray
 
 use crate::{
+    builtins::number::{f64_to_int32, f64_to_uint32},
     Context, JsArgs, JsResult, JsString,
     builtins::{BuiltInBuilder, BuiltInConstructor, BuiltInObject, IntrinsicObject},
     context::intrinsics::{Intrinsics, StandardConstructor, StandardConstructors},
@@ -538,15 +539,17 @@ impl TypedArrayKind {
     /// assuming the `ContentType` of this kind is `Number`.
     pub(crate) fn to_element_f64(self, value: f64) -> TypedArrayElement {
         match self {
-            TypedArrayKind::Int8 => TypedArrayElement::Int8(value as i8),
-            TypedArrayKind::Uint8 => TypedArrayElement::Uint8(value as u8),
-            TypedArrayKind::Uint8Clamped => {
-                TypedArrayElement::Uint8Clamped(ClampedU8(value.clamp(0.0, 255.0).round() as u8))
-            }
-            TypedArrayKind::Int16 => TypedArrayElement::Int16(value as i16),
-            TypedArrayKind::Uint16 => TypedArrayElement::Uint16(value as u16),
-            TypedArrayKind::Int32 => TypedArrayElement::Int32(value as i32),
-            TypedArrayKind::Uint32 => TypedArrayElement::Uint32(value as u32),
+            // NOTE: the integer conversions are modular (`ToInt8`, `ToUint8`, ...), not the
+            //       saturating conversions of an `as` cast from `f64`.
+            TypedArrayKind::Int8 => TypedArrayElement::Int8(f64_to_int32(value) as i8),
+            TypedArrayKind::Uint8 => TypedArrayElement::Uint8(f64_to_int32(value) as u8),
+            TypedArrayKind::Uint8Clamped => TypedArrayElement::Uint8Clamped(ClampedU8(
+                value.clamp(0.0, 255.0).round_ties_even() as u8,
+            )),
+            TypedArrayKind::Int16 => TypedArrayElement::Int16(f64_to_int32(value) as i16),
+            TypedArrayKind::Uint16 => TypedArrayElement::Uint16(f64_to_int32(value) as u16),
+            TypedArrayKind::Int32 => TypedArrayElement::Int32(f64_to_int32(value)),
+            TypedArrayKind::Uint32 => TypedArrayElement::Uint32(f64_to_uint32(value)),
             #[cfg(feature = "float16")]
             TypedArrayKind::Float16 => {
                 TypedArrayElement::Float16(Float16(float16::f16::from_f64(value)))
